@@ -792,3 +792,27 @@ Proof.
   apply insert_ext_in. intros y Hy. apply H. left. reflexivity. right.
   eapply Permutation.Permutation_in. apply Permutation.Permutation_sym. apply (isort_perm c2 t). exact Hy.
 Qed.
+
+Lemma compile_limit_entries : forall S vo q vo' lim off, compile_limit vo q = (vo', lim, off) ->
+  entries_ok S vo -> (forall n, q_first q = OVar n -> S n) -> (forall n, q_skip q = Some (OVar n) -> S n) -> entries_ok S vo'.
+Proof.
+  intros S vo q vo' lim off H Ho Hf Hs. unfold compile_limit in H.
+  destruct (limit_sx vo (q_first q)) as [vo1 lim1] eqn:E1.
+  pose proof (limit_sx_entries S _ _ _ _ E1 Ho Hf) as H1.
+  destruct (q_skip q) as [so|] eqn:Es.
+  - destruct (limit_sx vo1 so) as [vo2 off1] eqn:E2. injection H as <- <- <-.
+    eapply limit_sx_entries; eauto. intros n ->. apply Hs. reflexivity.
+  - injection H as <- <- <-. exact H1.
+Qed.
+
+(* the statement is well-formed SQL outside classes 4 and 8 *)
+Lemma filters_not_malformed : forall m q fs sfs,
+  Forall2 (fun f sf => exists xv, sf = filter_form m q f xv /\ True) fs sfs ->
+  (forall f, In f fs -> match filter_default m q f with Some (VStr s) => has_quote s | _ => false end = false) ->
+  existsb (fun f => match f with FCase d _ _ _ => sx_malformed d | _ => false end) sfs = false.
+Proof.
+  intros m q fs sfs H. induction H as [|f sf fs sfs (xv & -> & _) Hrest IH]; intros Hq. reflexivity.
+  simpl. rewrite IH by (intros f' Hin; apply Hq; right; exact Hin). rewrite orb_false_r.
+  specialize (Hq f (or_introl eq_refl)). unfold filter_form, filter_dflt.
+  destruct (filter_default m q f) as [d|]; [|reflexivity]. destruct d; try reflexivity. exact Hq.
+Qed.
